@@ -23,7 +23,10 @@ def _memo_at(at):
     cache = {}
 
     def f(i):
-        c = cur()
+        from .core import Ctx
+        c = Ctx.cur
+        if c is None:
+            return at(i)            # no exploration in progress (a counter-model is being read off): no cache
         key = (i.get_id() if z3.is_expr(i) else ("py", i), tuple(id(q[1]) for q in c.qscopes))
         hit = cache.get(key)
         if hit is not None and hit[0] is c:
